@@ -226,6 +226,14 @@ def observe(spec, seed):
     except Exception as e:                                   # "every lattice with sides >= 2 can be constructed"
         rec["stage"], rec["error"] = "construct", f"{type(e).__name__}: {e}"
         return rec
+    # history independence: what a lattice answers must not depend on which other lattices were built and USED
+    # earlier in the same process (module-level tables keyed by an incomplete hash, shared mutable defaults):
+    # its one-attribute neighbours (other boundary, longer side, other hop signs) are built and walked first
+    for _, os_ in other_specs(spec):
+        try:
+            look(build(os_, seed))
+        except Exception:
+            pass                                             # that lattice is judged (and reported) on its own
     try:
         rec["sites"], rec["snum"], rec["nbrs"], rec["adj"], rec["adj_source"] = look(l)
         rec["n"], rec["coord"] = int(l.n_sites), int(l.coord_num)
